@@ -1099,6 +1099,28 @@ def f_corrcoef(x, y=None, rowvar=True, **kw):
     return out.view(SymArray)
 
 
+def f_cov(x, y=None, **kw):
+    """np.cov of two vectors: the sample covariance matrix (ddof = 1)."""
+    _used("cov(2 vectors, ddof=1)")
+    if y is None or kw:
+        raise Unsupported("cov of a matrix / with options")
+    xs = list(to_obj(x).reshape(-1))
+    ys = list(to_obj(y).reshape(-1))
+    n = len(xs)
+    mx, my = l_mean(xs), l_mean(ys)
+    dx = [e - mx for e in xs]
+    dy = [e - my for e in ys]
+    den = float(n - 1)
+
+    def dv(v):
+        return elem_apply(np.true_divide, v, den)
+    out = np.empty((2, 2), dtype=object)
+    out[0, 0] = dv(l_sum([a * a for a in dx]))
+    out[1, 1] = dv(l_sum([b * b for b in dy]))
+    out[0, 1] = out[1, 0] = dv(l_sum([a * b for a, b in zip(dx, dy)]))
+    return out.view(SymArray)
+
+
 def f_round(a, decimals=0, out=None):
     """np.round: exact on concrete values; on a symbolic value it is the
     identity when the value provably has at most `decimals` decimals (over the
@@ -1224,7 +1246,7 @@ HANDLERS = {
     np.unique: f_unique, np.intersect1d: f_intersect1d, np.isin: f_isin,
     np.isclose: f_isclose, np.where: f_where, np.nonzero: lambda a: f_where(a),
     np.any: f_any, np.all: f_all, np.count_nonzero: f_count_nonzero,
-    np.nan_to_num: f_nan_to_num, np.histogram: f_histogram, np.corrcoef: f_corrcoef,
+    np.nan_to_num: f_nan_to_num, np.histogram: f_histogram, np.corrcoef: f_corrcoef, np.cov: f_cov,
     np.round: f_round, np.around: f_round, np.array_equal: f_array_equal, np.copy: f_copy,
     np.searchsorted: f_searchsorted,
 }
